@@ -7,6 +7,7 @@ from vlib import *
 import vlib
 from macro_scripts import load_fixtures, random_script, write_scripts
 import attr_corpus
+import replay as _rp
 
 
 def unit_scripts(fx, rng):
@@ -97,6 +98,10 @@ def run_attrs_check(pid, tier, seed, wd):
             ids = sorted(set(i for (i, l) in tv["fails"] if l == ln))
             tp = os.path.join(REPLAYS, "%s_corpus_%s_%d.ndjson" % (pid, who, ln))
             inner = extract_trace(tr, ln, tp)
+            tid = json.loads(open(tp).readline()).get("trace")
+            sc = next((x for x in scripts if x["id"] == tid), None)
+            if sc:
+                _rp.sidecar(tp, "macro", {"script": sc, "any_monitor": True})
             attrs = fx.get(who, {}).get("attrs", "?")
             violations.append(("#[%s(%s)] fn %s does not behave like the cache its attributes describe: monitors %s false on line %d"
                                % ("cache_async" if fx.get(who, {}).get("kind") == "async" else "cache", attrs, who, ids, inner), tp))
